@@ -93,6 +93,7 @@ impl LookaheadDFA {
 
             // Filter the transitions with the matching from-state
             let mut any_matching_found = false;
+            let mut transition_taken = false;
             for i in 0..self.transitions.len() {
                 let current_transition = &self.transitions[i];
 
@@ -122,6 +123,7 @@ impl LookaheadDFA {
                         // Set the state to the to-state
                         state = current_transition.2;
                         prod_num = current_transition.3;
+                        transition_taken = true;
                         // Test if the production in this transition is a valid one.
                         // In this case the to-state is an accepting one.
                         if prod_num > INVALID_PROD {
@@ -142,6 +144,10 @@ impl LookaheadDFA {
                     }
                     _ => (),
                 }
+            }
+            if !transition_taken {
+                // No transition exists for the current lookahead token: never skip over it.
+                break;
             }
         }
         if prod_num > INVALID_PROD {
